@@ -11,9 +11,10 @@ import common_rq
 from extract import ExtractionError
 
 GEN_EXPR = "prqlc/prqlc/src/sql/gen_expr.rs"
+SQL_MOD = "prqlc/prqlc/src/sql/mod.rs"
 
-LABELS = ["CI1", "IA1"]
-FUNCTIONS = ["compute_arm", "into_ast"]
+LABELS = ["CI1", "IA1", "CP1", "CP2"]
+FUNCTIONS = ["compute_arm", "into_ast", "post_column_slice"]
 RLIMIT = 60
 
 ASSUMED = [
@@ -23,12 +24,17 @@ ASSUMED = [
              "ast_of_source(text); Context is a shim with the one field the arm touches (query.window_function)",
      "keys": ["fn translate_expr", "fn translate_windowed", "fn clone_rq", "fn clone_window", "fn ident_expr", "spec fn translated", "spec fn ast_of_source", "struct Context", "struct QueryOpts",
               "struct Span", "struct SqlExpr"]},
+    {"what": "AnchorContext is the shim {column_names}; HashMap<CId, String> is the shim NameMap with a ghost Map view (get); String::clone / Option<&String>::cloned keep the text; translate_star is external; "
+             "`name.expect(..)` is the unwrap whose precondition is the panic condition (a name has been set: discharged by ensure_names, unit sort_names, and assign_names)",
+     "keys": ["struct NameMap", "fn view", "fn get", "fn translate_star", "fn cloned_name", "fn clone_string_ref", "struct AnchorShim"]},
 ]
 TRUSTED = [
     "oracle (C02): parentheses are decided by the parent from the binding strength of the translated child (sql_prec NP1 / TO1).  A derived column is inlined by "
     "translate_cid, so what translate_cid returns for it must BE the translation of its expression (CI1): turned into a bare sql_ast::Expr first, an s-string operator "
     "(`%`, `//`, unary minus, `!`, `~=`) becomes an atom and loses the parentheses it needs (`c * (a % b)` -> `c * a % b`)",
-    "the slice drops: the RelationColumn arm and the post-projection branch of translate_cid (identifiers: atoms)",
+    "oracle (C03 / C05): once a SELECT's projection is written, a column goes by the name RECORDED for it (anchor.column_names): at a pipeline split a column that clashes with another is renamed (`a AS _expr_0`), "
+    "and ORDER BY / later clauses must use that name - the column's own name may by then denote another expression of the same SELECT (CP1)",
+    "the slice drops: the RelationColumn arm of the pre-projection branch, the table qualifier and the assembly of the compound identifier in the post-projection branch",
 ]
 
 PRELUDE = r"""
@@ -38,8 +44,21 @@ verus! {
 """ + common_rq.OPAQUE.replace("pub struct SpanMarker; pub type Span = Opaque<SpanMarker>;", "#[derive(Clone, Copy)] #[verifier::external_body] pub struct Span { _p: u8 }") + r"""
 #[verifier::external_body] pub struct SqlExpr { _p: u8 }
 pub mod sql_ast { pub type Expr = super::SqlExpr; }
-pub struct QueryOpts { pub window_function: bool, pub pre_projection: bool }
-pub struct Context { pub query: QueryOpts }
+#[verifier::external_body] pub struct NameMap { _p: u8 }
+impl NameMap {
+    pub uninterp spec fn view(&self) -> Map<usize, String>;
+    #[verifier::external_body]
+    pub fn get(&self, k: &rq::CId) -> (r: Option<&String>)
+        ensures match r { Some(t) => self.view().contains_key(k.0) && *t == self.view()[k.0], None => !self.view().contains_key(k.0) },
+    { unimplemented!() }
+}
+#[verifier::external_body] pub fn cloned_name(o: Option<&String>) -> (r: Option<String>) ensures match o { Some(t) => r == Some(*t), None => r is None }, { unimplemented!() }
+pub struct AnchorShim { pub column_names: NameMap }
+@QUERY_OPTS@
+pub struct Context { pub query: QueryOpts, pub anchor: AnchorShim }
+#[verifier::external_body] pub fn translate_star(ctx: &Context, span: Option<Span>) -> (r: Result<String, Error>) { unimplemented!() }
+pub type RIId = usize;
+pub enum ColumnDecl { RelationColumn(RIId, rq::CId, rq::RelationColumn), Compute(Box<rq::Compute>) }
 pub uninterp spec fn translated(e: rq::Expr) -> ExprOrSource;
 pub uninterp spec fn ast_of_source(t: String) -> SqlExpr;
 #[verifier::external_body]
@@ -81,7 +100,29 @@ def build(X):
                 "        // without a window, the reference IS the translation of the column's expression (strength and all)\n"
                 "        (r is Ok && compute.window is None) ==> r->Ok_0.carried() == translated(compute.expr), // @CI1\n"
                 "{\n    Ok({\n" % ret + arm.text + "\n    })\n}\n")
-    return (PRELUDE + types + eos.text + "\n" + se.text + "\nimpl ExprOrSource {\n" + into_ast.text + "\n}\n" + arm.text + "\n} // verus!\nfn main() {}\n")
+    # ---- post-projection: the name a column goes by
+    qo = X.type_item(SQL_MOD, "struct", "QueryOpts").drop_attrs().pub_all()
+    pc = X.fn(GEN_EXPR, "translate_cid")
+    pc.drop_logging()
+    mpc = re.search(r"let column = (match &column_decl \{.*?\n        \});", pc.text, re.S)
+    if not mpc:
+        raise ExtractionError("translate_cid: `let column = match &column_decl { .. };` of the post-projection branch not found")
+    pbody = mpc.group(1)
+    pbody = re.sub(r"ctx\.anchor\.column_names\.get\(&cid\)\.cloned\(\)", "cloned_name(ctx.anchor.column_names.get(&cid))", pbody)
+    pbody = re.sub(r"\bname\.expect\(\s*\"[^\"]*\"\s*\)", "name.unwrap()", pbody)
+    pbody = re.sub(r"\bname\.clone\(\)", "clone_string_ref(name)", pbody)
+    pc.rewrites.append({"rule": "slice", "what": "the statement `let column = match &column_decl { .. };` of the post-projection branch of translate_cid wrapped as fn post_column_slice(column_decl, cid, ctx) -> Result<String>; "
+                        ".get(&cid).cloned() -> cloned_name (R5); expect -> unwrap"})
+    pc.dropped = "rest of fn translate_cid outside the post-projection `let column = ..;`"
+    pc.text = ("#[verifier::external_body] pub fn clone_string_ref(s: &String) -> (r: String) ensures r == *s, { unimplemented!() }\n"
+               "pub fn post_column_slice(column_decl: &&ColumnDecl, cid: rq::CId, ctx: &mut Context) -> (r: Result<String, Error>)\n"
+               "    requires old(ctx).anchor.column_names.view().contains_key(cid.0),\n"
+               "    ensures\n"
+               "        // C03 / C05: after the projection a column - whatever it is declared as - goes by the name recorded for it\n"
+               "        (r is Ok && !(**column_decl is RelationColumn && (**column_decl)->RelationColumn_2 is Wildcard)) ==> r->Ok_0 == old(ctx).anchor.column_names.view()[cid.0], // @CP1\n"
+               "        *final(ctx) == *old(ctx), // @CP2\n"
+               "{\n    let column = " + pbody + ";\n    Ok(column)\n}\n")
+    return (PRELUDE.replace("@QUERY_OPTS@", qo.text) + types + eos.text + "\n" + se.text + "\nimpl ExprOrSource {\n" + into_ast.text + "\n}\n" + arm.text + "\n" + pc.text + "\n} // verus!\nfn main() {}\n")
 
 
 # ----------------------------------------------------------------------------- replay on the real compiler
